@@ -7,6 +7,7 @@ import (
 	"net/http/httptest"
 	"strings"
 	"sync"
+	"verifharness/internal/netx"
 
 	"github.com/multiformats/go-multiaddr"
 )
@@ -40,7 +41,7 @@ func NewProxy(backendAddr multiaddr.Multiaddr) *Proxy {
 	hp, _ := backendAddr.ValueForProtocol(multiaddr.P_IP4)
 	port, _ := backendAddr.ValueForProtocol(multiaddr.P_TCP)
 	p := &Proxy{backend: "http://" + hp + ":" + port, client: &http.Client{}}
-	p.srv = httptest.NewServer(http.HandlerFunc(p.handle))
+	p.srv = netx.NewServer(http.HandlerFunc(p.handle))
 	return p
 }
 
